@@ -33,7 +33,7 @@ class VarInfo:
     dims: tuple               # dimension names in stored order
     shape: tuple
     base: int                 # tag base: value at C-order position p is base + p
-    dtype: str                # 'f8' | 'i4' | 'i4fill' | 'i4missing'
+    dtype: str                # 'f8' | 'i4' | 'i4fill' | 'i4missing' | 'i4fill0'
     nan: tuple = ()           # flat positions holding a missing value
 
 
@@ -67,6 +67,9 @@ class Built:
 # --------------------------------------------------------------------------
 # data variables
 
+INT_FILL = {'i4fill': -999, 'i4missing': -999, 'i4fill0': 0}
+
+
 def _add_vars(ds: xr.Dataset, built_grids: dict, var_recipes: list, sizes_extra: dict) -> dict:
     infos = {}
     for vr in var_recipes:
@@ -95,11 +98,13 @@ def _add_vars(ds: xr.Dataset, built_grids: dict, var_recipes: list, sizes_extra:
             data = (np.arange(n, dtype='i4') + base).reshape(shape)
             if dtype == 'i4fill':
                 attrs['_FillValue'] = np.int32(-999)
+            elif dtype == 'i4fill0':
+                attrs['_FillValue'] = np.int32(0)      # a fill value that is falsy
             elif dtype == 'i4missing':
                 attrs['missing_value'] = np.int32(-999)
             if nan and dtype != 'i4':
                 flat = data.reshape(-1)
-                flat[list(nan)] = -999
+                flat[list(nan)] = INT_FILL[dtype]
             else:
                 nan = ()
         attrs.update(vr.get('attrs', {}))
@@ -183,17 +188,32 @@ def build_cf1d(r: dict) -> Built:
     ds = xr.Dataset(attrs=dict(r.get('attrs', {'Conventions': 'CF-1.4'})))
     lat_da = xr.DataArray(np.array(lat, dtype='f8'), dims=[ydim], attrs=lat_attrs)
     lon_da = xr.DataArray(np.array(lon, dtype='f8'), dims=[xdim], attrs=lon_attrs)
-    if coords_as == 'coords' or latname == ydim:
-        ds = ds.assign_coords({latname: lat_da})
-    else:
+    def _put_lat(ds):
+        if coords_as == 'coords' or latname == ydim:
+            return ds.assign_coords({latname: lat_da})
         ds[latname] = lat_da
-    if coords_as == 'coords' or lonname == xdim:
-        ds = ds.assign_coords({lonname: lon_da})
-    else:
+        return ds
+
+    def _put_lon(ds):
+        if coords_as == 'coords' or lonname == xdim:
+            return ds.assign_coords({lonname: lon_da})
         ds[lonname] = lon_da
+        return ds
+    # 'lon_first': the dataset declares its x dimension before its y dimension (dataset.sizes order is then
+    # not the grid's (y, x) order; nothing in emsarray may depend on the declaration order)
+    if r.get('lon_first'):
+        ds = _put_lat(_put_lon(ds))
+    else:
+        ds = _put_lon(_put_lat(ds))
     if bounds != 'none':
         lb = xr.DataArray(np.array([[float(a), float(b)] for a, b in latb]), dims=[ydim, 'nv'])
         xb = xr.DataArray(np.array([[float(a), float(b)] for a, b in lonb]), dims=[xdim, 'nv'])
+        if r.get('neg_zero'):
+            # the same number spelt two ways: a cell's second bound that is zero is stored as -0.0, its
+            # neighbour's first bound as 0.0 (what mirroring northern bounds to the south produces)
+            for arr in (lb, xb):
+                col = arr.values[:, 1]
+                col[col == 0] = -0.0
         if r.get('bounds_as', 'vars') == 'coords':
             ds = ds.assign_coords({latname + '_bnds': lb, lonname + '_bnds': xb})
         else:
@@ -235,7 +255,8 @@ def random_cf1d(rng: random.Random, max_n: int = 6, **kw) -> dict:
          'ydim': names[0], 'xdim': names[1], 'latname': names[2], 'lonname': names[3],
          'bounds': kw.get('bounds', rng.choice(['none', 'contig', 'none', 'contig'])),
          'coords_as': kw.get('coords_as', 'coords'),
-         'bounds_as': kw.get('bounds_as', 'vars')}
+         'bounds_as': kw.get('bounds_as', 'vars'),
+         'lon_first': rng.random() < 0.5}
     return r
 
 
@@ -609,7 +630,16 @@ def build_ugrid(r: dict) -> Built:
     if fill == 'none' and (not uniform or tables & {'edge_face', 'face_face'}):
         # boundary edges / faces with fewer neighbours need missing entries
         fill = 'nan'
-    FILL = 999999
+    # how an integer table marks a missing entry: (dtype, value)
+    fill_spec = enc.get('fill_spec', 'i4big')
+    FDTYPE, FILL = {
+        'i4big': ('i4', 999999),
+        'low': ('i4', base - 1),                 # 0 for a one-based table: a fill value that is falsy
+        'neg': ('i4', -1 if base == 0 else -9),
+        'u4max': ('u4', 4294967295),             # the netCDF default fill of an unsigned int: beyond int32
+        'i8max': ('i8', 2 ** 40),                   # beyond int32, exactly representable as a float64 (xarray decodes through float64)
+        'i2': ('i2', -32767),
+    }[fill_spec]
     names = r.get('names', {})
     fdim = names.get('face_dim', 'nMesh2_face')
     ndim = names.get('node_dim', 'nMesh2_node')
@@ -621,7 +651,7 @@ def build_ugrid(r: dict) -> Built:
         if fill == 'nan':
             data = np.full((len(rows), width), np.nan, dtype='f8')
         else:
-            data = np.full((len(rows), width), FILL, dtype='i4')
+            data = np.full((len(rows), width), FILL, dtype=FDTYPE)
         for k, row in enumerate(rows):
             for c, v in enumerate(row):
                 if v is not None:
@@ -630,7 +660,7 @@ def build_ugrid(r: dict) -> Built:
         if base != 0 or enc.get('explicit_start_index', True):
             attrs['start_index'] = {'int': base, 'str': str(base), 'np': np.int32(base)}[start_index_spelling]
         if fill == 'attr':
-            attrs['_FillValue'] = np.int32(FILL)
+            attrs['_FillValue'] = np.dtype(FDTYPE).type(FILL)
         d = list(dims)
         if transposed:
             data = data.T
@@ -722,6 +752,14 @@ def build_ugrid(r: dict) -> Built:
     return b
 
 
+_UGRID_CALLS = None
+ENC_COMBOS = [(f, sp, b) for b in (0, 1) for f, sp in
+              [('attr', 'i4big'), ('attr', 'low'), ('attr', 'neg'), ('attr', 'u4max'), ('attr', 'i8max'), ('attr', 'i2'),
+               ('nan', 'i4big'), ('none', 'i4big')]]
+# interleave so that neighbouring meshes differ in every respect
+ENC_COMBOS = [ENC_COMBOS[(7 * k) % 16] for k in range(16)]
+
+
 def random_ugrid(rng: random.Random, max_w: int = 3, max_h: int = 3, **kw) -> dict:
     w, h = rng.randint(1, max_w), rng.randint(1, max_h)
     shear = None
@@ -735,18 +773,43 @@ def random_ugrid(rng: random.Random, max_w: int = 3, max_h: int = 3, **kw) -> di
     tables = [t for t in ['edge_node', 'face_edge', 'edge_face', 'face_face'] if rng.random() < 0.35]
     if 'tables' in kw:
         tables = kw['tables']
+    # the representation of the tables (fill kind x integer fill value x index base) is walked round-robin, not
+    # drawn independently: every combination turns up once in any 16 consecutive meshes
+    global _UGRID_CALLS
+    if _UGRID_CALLS is None:
+        _UGRID_CALLS = rng.randrange(len(ENC_COMBOS))
+    _UGRID_CALLS += 1
+    c_fill, c_spec, c_base = ENC_COMBOS[_UGRID_CALLS % len(ENC_COMBOS)]
     enc = {
-        'start_index': kw.get('start_index', rng.choice([0, 1])),
-        'fill': kw.get('fill', rng.choice(['nan', 'attr', 'none'])),
-        'transposed': kw.get('transposed', rng.random() < 0.25),
+        'start_index': kw.get('start_index', c_base),
+        'fill': kw.get('fill', c_fill),
+        'transposed': kw.get('transposed', rng.random() < 0.35),
         'tables': tables,
         'edge_dim_declared': kw.get('edge_dim_declared', rng.random() < 0.4),
         'coords_as': kw.get('coords_as', 'vars'),
         'face_coords': kw.get('face_coords', None),
         'edge_face_missing_first': kw.get('edge_face_missing_first', rng.random() < 0.35),
+        'fill_spec': kw.get('fill_spec', c_spec),
     }
     r = {'conv': 'ugrid', 'nodes': mesh['nodes'], 'faces': mesh['faces'], 'enc': enc}
     return r
+
+
+def pack_coordinates(ds: xr.Dataset, skip=()) -> xr.Dataset:
+    """Files in the wild store coordinates packed (scale_factor) or with a numeric fill value for the missing
+    ones: the decoded content is the same, the raw numbers in the file are not.  Sets the encodings only
+    (exactly representable: multiples of 1/8), so the in-memory dataset is unchanged."""
+    ds = ds.copy()
+    for name in list(ds.variables):
+        v = ds[name]
+        if name in skip or v.dtype.kind != 'f' or v.size == 0:
+            continue
+        vals = np.asarray(v.values, dtype='f8')
+        if np.isnan(vals).any():
+            ds[name].encoding['_FillValue'] = -999.0
+        elif np.array_equal(vals * 8, np.round(vals * 8)) and np.abs(vals).max() < 1e6:
+            ds[name].encoding.update(dtype='i4', scale_factor=0.125, add_offset=0.0)
+    return ds
 
 
 # --------------------------------------------------------------------------
